@@ -280,7 +280,12 @@ def run(ctx):
     type_values = dict(OTHERS)
     type_values.update({'zero': 0, 'negative': -1.5, 'emptytext': '',
                         'false': False, 'booltext': 'true',
-                        'scitext': '1e3', 'blanktext': ' '})
+                        'scitext': '1e3', 'blanktext': ' ',
+                        # texts a date/number reader may choke on
+                        'tz-date-text': '2020-01-01T00:00:00Z',
+                        'offset-date-text': '2020-01-01 10:00+02:00',
+                        'huge-digits-text': '9' * 400,
+                        'time-text': '12:00'})
     from xlcalculator.xlfunctions import func_xltypes as T
 
     def typed(v):
